@@ -64,6 +64,20 @@ func init() {
 			}
 			c.emit(e)
 		}
+		// zooms 0 and 1: every cover x min x count
+		for count := 1; count <= 4; count++ {
+			run(0, [][3]int{{0, 0, 0}}, 0, count)
+			for mask := 1; mask < 16; mask++ {
+				var tiles [][3]int
+				for b := 0; b < 4; b++ {
+					if mask&(1<<uint(b)) != 0 {
+						tiles = append(tiles, [3]int{b % 2, b / 2, 1})
+					}
+				}
+				run(1, tiles, 0, count)
+				run(1, tiles, 1, count)
+			}
+		}
 		// zoom 2: seeded subsets of the 16 tiles x min x count
 		n2 := c.pick(1500, 65535)
 		for i := 0; i < n2; i++ {
